@@ -37,24 +37,40 @@ func c06E2EJob(tier string) *SeqJob {
 		{tag: true, tags: map[string]string{"ok": "1.5"}},
 		{tag: true, tags: map[string]string{"\xff": "€"}},
 		{tag: true, tags: map[string]string{"s.s": "s.s"}}, // one raw string as subscope name, tag key and tag value
+		{tag: true, tags: map[string]string{"fine": "clean"}}, // nothing to rewrite: the library must still not keep the caller's map
 	}
 	depth := tierInt(tier, 2, 3)
+	// every map handed to the library is edited afterwards (dirty strings put in): nothing of that may reach a reporter
+	spoil := func(m map[string]string) {
+		for k := range m {
+			m[k] = "late!edit?"
+		}
+		m["late key!"] = "late.value?"
+	}
 	run := func(ci int, cached bool, seq []int) (string, string, int) {
 		c := cfgs[ci]
 		rec := &Recorder{NoPoints: true}
-		o := tally.ScopeOptions{Prefix: "p!x", Separator: "/", Tags: map[string]string{"root key": "root.val"}, SanitizeOptions: &c.o,
-			CardinalityMetricsTags: map[string]string{"c!": "d?"}}
+		rootTags, cardTags := map[string]string{"root key": "root.val"}, map[string]string{"c!": "d?"}
+		if cached {
+			rootTags, cardTags = map[string]string{"rootkey": "rootval"}, map[string]string{"c": "d"}
+		}
+		o := tally.ScopeOptions{Prefix: "p!x", Separator: "/", Tags: rootTags, SanitizeOptions: &c.o,
+			CardinalityMetricsTags: cardTags}
 		if cached {
 			o.CachedReporter = cachedRec{rec}
 		} else {
 			o.Reporter = plainRec{rec}
 		}
 		root, _ := tally.VerifNewRootScope(o, 0, 1)
+		spoil(rootTags)
+		spoil(cardTags)
 		s := tally.Scope(root)
 		steps := 1
 		for _, k := range seq {
 			if alpha[k].tag {
-				s = s.Tagged(cloneTags(alpha[k].tags))
+				m := cloneTags(alpha[k].tags)
+				s = s.Tagged(m)
+				spoil(m)
 			} else {
 				s = s.SubScope(alpha[k].sub)
 			}
